@@ -23,7 +23,26 @@ func il(v int64) ast.Node                        { return ast.IntLit{V: v} }
 // the call expression rendering its result.
 func pureFunction(r *core.Rng) (defs []ast.Node, callExpr ast.Node, kind string) {
 	deep := ast.Assign{Name: "pdeep", Value: ast.FuncLit{Params: []string{"n"}, Body: ast.If{Cond: ast.Binary{Op: "<=", L: nm("n"), R: il(0)}, Then: il(0), Else: ast.Binary{Op: "+", L: il(1), R: icall("pdeep", ast.Binary{Op: "-", L: nm("n"), R: il(1)})}}}}
-	switch r.Intn(12) {
+	switch r.Intn(13) {
+	case 12: // a loop whose iterator expressions read locals from every part of a small frame
+		kind = "loop-reading-many-locals"
+		nl := r.Range(4, 9)
+		var ss []ast.Node
+		for i := 0; i < nl; i++ {
+			ss = append(ss, ast.Assign{Name: wideName(i), Value: ast.Binary{Op: "+", L: nm("n"), R: il(int64(i + 1))}})
+		}
+		pick := func() ast.Node { return nm(wideName(r.Intn(nl))) }
+		ss = append(ss, ast.Assign{Name: "c", Value: il(0)},
+			ast.For{Vars: []string{"i", "j"}, Iters: []ast.Node{icall("fromto", pick(), ast.Binary{Op: "+", L: pick(), R: il(3)}), icall("fromto", pick(), ast.Binary{Op: "+", L: pick(), R: pick()})},
+				Body: ast.Assign{Name: "c", Value: ast.Binary{Op: "+", L: nm("c"), R: ast.Binary{Op: "*", L: nm("i"), R: nm("j")}}}},
+			ast.For{Vars: []string{"k"}, Iters: []ast.Node{icall("elems", ast.ArrayLit{Elems: []ast.Node{pick(), pick(), pick()}})}, Body: ast.Assign{Name: "c", Value: ast.Binary{Op: "+", L: nm("c"), R: nm("k")}}})
+		var all []ast.Node
+		for i := 0; i < nl; i++ {
+			all = append(all, nm(wideName(i)))
+		}
+		ss = append(ss, ast.ArrayLit{Elems: append([]ast.Node{nm("c")}, all...)})
+		defs = []ast.Node{ast.Assign{Name: "pf", Value: ast.FuncLit{Params: []string{"n"}, Body: ast.Block{Stmts: ss}}}}
+		return defs, toa(icall("pf", il(int64(r.Range(0, 9))))), kind
 	case 11: // closures that leave their call through yield (the call itself returns a number), called again after the context was recycled
 		kind = "yielded-closures"
 		body := ast.Block{Stmts: []ast.Node{
@@ -529,7 +548,7 @@ func init() {
 			{Name: "uninit", Count: countFn(300, 12000), Run: c03Uninit},
 			{Name: "depths", Count: countFn(48, 1200), Run: func(ctx *core.Ctx, idx int) core.Result { return depthCase("C03", ctx, idx) }},
 		},
-		Floors: []core.Floor{{Key: "placements_compared", Quick: 12000, Thor: 500000}, {Key: "tag:placement:", Quick: 22, Thor: 22}, {Key: "tag:function:", Quick: 12, Thor: 12}, {Key: "stack_growths", Quick: 3000, Thor: 80000}, {Key: "context_clone_reuse", Quick: 500, Thor: 15000}},
+		Floors: []core.Floor{{Key: "placements_compared", Quick: 12000, Thor: 500000}, {Key: "tag:placement:", Quick: 22, Thor: 22}, {Key: "tag:function:", Quick: 13, Thor: 13}, {Key: "stack_growths", Quick: 3000, Thor: 80000}, {Key: "context_clone_reuse", Quick: 500, Thor: 15000}},
 	})
 	core.CaseSeconds["C03/placements"] = 1
 }
